@@ -1,4 +1,5 @@
 import NumbersModel.Lemmas.Tokenizer
+import Mathlib.Data.List.Induction
 namespace NumbersModel.Tokenizer
 open NumbersModel
 
@@ -221,46 +222,99 @@ theorem sqMatch_wf {ws s n} (h : sqMatch ws s = some n) : SQLit ws (s.take n) :=
     rw [List.take_add]; exact this
   · cases h
 
-/-! #### the invariant: quote characters only ever enter `items` as complete literals -/
+/-! #### the invariant: every quote character of a token lies in a complete literal of that token -/
+
+/-- a text whose quote characters all belong to complete quoted names inside it: built from
+    non-quote characters and whole `'…'` literals (e.g. `Table 1::'a-b':'c d'`). -/
+inductive Segs (ws : List Nat) : List Char → Prop
+  | nil : Segs ws []
+  | char (u : List Char) (c : Char) : Segs ws u → isQuote c = false → Segs ws (u ++ [c])
+  | lit (u l : List Char) : Segs ws u → SQLit ws l → Segs ws (u ++ l)
+
+/-- what every token satisfies: it is one complete double-quoted string, or all its quote
+    characters lie in complete quoted names inside it. -/
+def WellQuoted (ws : List Nat) (v : Text) : Prop := DQLit v ∨ Segs ws v
 
 def QInv (ws : List Nat) (st : St) : Prop :=
-  hasQuote st.token = false ∧ ∀ t ∈ st.items, hasQuote t.value = true → Lit ws t.value
+  Segs ws st.token ∧ ∀ t ∈ st.items, WellQuoted ws t.value
 
 def CodesNoQuote (codes : List (List Char)) : Prop := ∀ e ∈ codes, hasQuote e = false
 
 theorem hasQuote_append (a b : Text) : hasQuote (a ++ b) = (hasQuote a || hasQuote b) := by
   simp [hasQuote, List.any_append]
 
+theorem segs_append_noquote {ws : List Nat} {u : List Char} (hu : Segs ws u) :
+    ∀ v : List Char, hasQuote v = false → Segs ws (u ++ v) := by
+  intro v
+  induction v generalizing u with
+  | nil => intro _; simpa using hu
+  | cons c r ih =>
+    intro h
+    have hc : isQuote c = false := by
+      simp only [hasQuote, List.any_cons, Bool.or_eq_false_iff] at h; exact h.1
+    have hr : hasQuote r = false := by
+      simp only [hasQuote, List.any_cons, Bool.or_eq_false_iff] at h; exact h.2
+    have := ih (Segs.char u c hu hc) hr
+    simpa [List.append_assoc] using this
+
+theorem segs_of_noquote {ws : List Nat} (v : List Char) (h : hasQuote v = false) : Segs ws v := by
+  have := segs_append_noquote (ws := ws) Segs.nil v h
+  simpa using this
+
 theorem items_push {ws : List Nat} {items : List Tok} {t : Tok}
-    (hi : ∀ u ∈ items, hasQuote u.value = true → Lit ws u.value)
-    (ht : hasQuote t.value = false ∨ Lit ws t.value) :
-    ∀ u ∈ items ++ [t], hasQuote u.value = true → Lit ws u.value := by
-  intro u hu hq
+    (hi : ∀ u ∈ items, WellQuoted ws u.value) (ht : WellQuoted ws t.value) :
+    ∀ u ∈ items ++ [t], WellQuoted ws u.value := by
+  intro u hu
   rcases List.mem_append.mp hu with h | h
-  · exact hi u h hq
-  · simp at h; subst h
-    rcases ht with ht | ht
-    · rw [ht] at hq; cases hq
-    · exact ht
+  · exact hi u h
+  · simp at h; subst h; exact ht
+
+theorem wq_noquote {ws : List Nat} {v : Text} (h : hasQuote v = false) : WellQuoted ws v :=
+  Or.inr (segs_of_noquote v h)
 
 theorem saveToken_q {ws st} (h : QInv ws st) : QInv ws (saveToken st) := by
   unfold saveToken; split
-  · exact ⟨rfl, items_push h.2 (Or.inl h.1)⟩
+  · exact ⟨Segs.nil, items_push h.2 (Or.inr h.1)⟩
   · exact h
+
+/-- if the guard passed with a pending token, the quote is a single quote (a linked name). -/
+theorem guard_linked {st : St} (hg : quoteGuard st = .ok ()) (hne : st.token ≠ []) :
+    ∃ r, st.rest = '\'' :: r := by
+  unfold quoteGuard at hg
+  split at hg
+  · rename_i hl
+    unfold linked at hl
+    split at hl
+    · rename_i r hr; exact ⟨r, hr⟩
+    · cases hl
+  · exact absurd (assertEmpty_ok hg) hne
 
 theorem parseString_q {ws st st'} (h : QInv ws st) (e : parseString ws st = .ok st') : QInv ws st' := by
   unfold parseString at e
-  rcases assertEmpty_cases st with ha | ha
+  rcases guard_cases st with ha | ha
   · simp only [ha, bind, Except.bind] at e
     split at e
     · cases e
     · rename_i n hm
-      injection e with e; subst e
-      refine ⟨h.1, items_push h.2 (Or.inr ?_)⟩
-      simp only [makeOperand_value]
-      split at hm
-      · exact Or.inl (dqMatch_wf hm)
-      · exact Or.inr (sqMatch_wf hm)
+      split at e
+      · rename_i hne
+        injection e with e; subst e
+        obtain ⟨r, hr⟩ := guard_linked ha hne
+        have hl : SQLit ws (st.rest.take n) := by
+          split at hm
+          · rename_i tl heq
+            rw [hr] at heq
+            injection heq with h1 _
+            exact absurd h1 (by decide)
+          · exact sqMatch_wf hm
+        exact ⟨Segs.lit _ _ h.1 hl, h.2⟩
+      · injection e with e; subst e
+        refine ⟨h.1, items_push h.2 ?_⟩
+        simp only [makeOperand_value]
+        split at hm
+        · exact Or.inl (dqMatch_wf hm)
+        · have := Segs.lit [] _ Segs.nil (sqMatch_wf hm)
+          exact Or.inr (by simpa using this)
   · simp [ha, bind, Except.bind] at e
 
 theorem parseError_q {ws codes st st'} (hc : CodesNoQuote codes) (h : QInv ws st)
@@ -271,7 +325,7 @@ theorem parseError_q {ws codes st st'} (hc : CodesNoQuote codes) (h : QInv ws st
     split at e
     · rename_i code hf
       injection e with e; subst e
-      exact ⟨h.1, items_push h.2 (Or.inl (hc code (List.mem_of_find?_eq_some hf)))⟩
+      exact ⟨h.1, items_push h.2 (wq_noquote (hc code (List.mem_of_find?_eq_some hf)))⟩
     · cases e
   · simp [ha, bind, Except.bind] at e
 
@@ -287,13 +341,13 @@ theorem parseOperator_q {ws st st'} (h : QInv ws st)
     injection e with e; subst e
     have hm : st.rest.take 2 ∈ twoCharOps := by
       simpa [List.contains_iff_mem] using h2
-    exact ⟨h.1, items_push h.2 (Or.inl (twoCharOps_noquote _ hm))⟩
+    exact ⟨h.1, items_push h.2 (wq_noquote (twoCharOps_noquote _ hm))⟩
   · split at e
     · cases e
     · rename_i c r hr
       injection e with e; subst e
       have hq : hasQuote [c] = false := by simp [hasQuote, hc c r hr]
-      refine ⟨h.1, items_push h.2 (Or.inl ?_)⟩
+      refine ⟨h.1, items_push h.2 (wq_noquote ?_)⟩
       have hv : ∀ (t : Tok), t.value = [c] → hasQuote t.value = false := by
         intro t htv; rw [htv]; exact hq
       apply hv
@@ -311,13 +365,13 @@ theorem parseOpener_q {ws st st'} (h : QInv ws st) (e : parseOpener st = .ok st'
   · rcases assertEmpty_cases st with ha | ha
     · simp only [ha, bind, Except.bind] at e
       injection e with e; subst e
-      exact ⟨h.1, items_push h.2 (Or.inl (by decide))⟩
+      exact ⟨h.1, items_push h.2 (wq_noquote (by decide))⟩
     · simp [ha, bind, Except.bind] at e
   · injection e with e; subst e
-    refine ⟨rfl, items_push h.2 (Or.inl ?_)⟩
+    refine ⟨Segs.nil, items_push h.2 ?_⟩
     split
-    · simp only [hasQuote_append, h.1]; decide
-    · decide
+    · exact Or.inr (Segs.char _ _ h.1 (by decide))
+    · exact wq_noquote (by decide)
   · cases e
 
 theorem getCloser_noquote (t : Tok) : hasQuote (getCloser t).value = false := by
@@ -334,16 +388,16 @@ theorem parseCloser_q {ws exc st st'} (h : QInv ws st) (e : parseCloser exc st =
         split at e
         · cases e
         · injection e with e; subst e
-          exact ⟨h.1, items_push h.2 (Or.inl (getCloser_noquote _))⟩
+          exact ⟨h.1, items_push h.2 (wq_noquote (getCloser_noquote _))⟩
   · cases e
 
 theorem parseSeparator_q {ws st st'} (h : QInv ws st) (e : parseSeparator st = .ok st') : QInv ws st' := by
   unfold parseSeparator at e
   split at e
   · injection e with e; subst e
-    exact ⟨h.1, items_push h.2 (Or.inl (by decide))⟩
+    exact ⟨h.1, items_push h.2 (wq_noquote (by decide))⟩
   · injection e with e; subst e
-    refine ⟨h.1, items_push h.2 (Or.inl ?_)⟩
+    refine ⟨h.1, items_push h.2 (wq_noquote ?_)⟩
     have hv : ∀ (t : Tok), t.value = [','] → hasQuote t.value = false := by
       intro t htv; rw [htv]; decide
     apply hv
@@ -362,7 +416,7 @@ theorem step_q {cfg : Cfg} {st st'} (hc : CodesNoQuote cfg.codes) (h : QInv cfg.
     · rename_i hsci
       injection e with e; subst e
       refine ⟨?_, h.2⟩
-      simp only [hasQuote_append, h.1, Bool.false_or]
+      apply Segs.char _ _ h.1
       rcases hsci.1 with hp | hp <;> subst hp <;> decide
     · generalize hst1 : (if cfg.enders.contains c = true then saveToken st else st) = st1 at e
       have h1 : QInv cfg.ws st1 := by
@@ -390,10 +444,7 @@ theorem step_q {cfg : Cfg} {st st'} (hc : CodesNoQuote cfg.codes) (h : QInv cfg.
               · split at e
                 · exact parseSeparator_q h1 e
                 · injection e with e; subst e
-                  refine ⟨?_, h1.2⟩
-                  have hs : hasQuote [c] = false := by simp [hasQuote, hcq]
-                  show hasQuote (st1.token ++ [c]) = false
-                  rw [hasQuote_append, h1.1, hs]; rfl
+                  exact ⟨Segs.char _ _ h1.1 hcq, h1.2⟩
 
 theorem loop_q {cfg : Cfg} (hc : CodesNoQuote cfg.codes) :
     ∀ fuel st st', QInv cfg.ws st → loop cfg fuel st = .ok st' → QInv cfg.ws st' := by
@@ -417,14 +468,14 @@ theorem loop_q {cfg : Cfg} (hc : CodesNoQuote cfg.codes) :
         exact ih st1 st' (step_q hc h hs) e
 
 theorem tokenize_quotes {cfg : Cfg} (hc : CodesNoQuote cfg.codes) (s : Text) (toks : List Tok)
-    (e : tokenize cfg s = .ok toks) : ∀ t ∈ toks, hasQuote t.value = true → Lit cfg.ws t.value := by
+    (e : tokenize cfg s = .ok toks) : ∀ t ∈ toks, WellQuoted cfg.ws t.value := by
   unfold tokenize at e
   cases hl : loop cfg (s.length + 1) ⟨[], [], [], s⟩ with
   | error x => simp [hl, bind, Except.bind] at e
   | ok st =>
     simp only [hl, bind, Except.bind] at e
     injection e with e; subst e
-    have h0 : QInv cfg.ws ⟨[], [], [], s⟩ := ⟨rfl, by simp⟩
+    have h0 : QInv cfg.ws ⟨[], [], [], s⟩ := ⟨Segs.nil, by simp⟩
     exact (loop_q hc _ _ _ h0 hl).2
 
 end NumbersModel.Tokenizer
